@@ -54,6 +54,50 @@ CHECKS = {
                      "nobody reads are represented by arbitrary transactions.",
                 technique="TLC exploration of a TLA+ AVM group semantics with the recorded sub-contexts bound in"),
 }
+CHECKS.update({
+    "C02": dict(level="model_checking", design_ref="DESIGN.md §5 C02",
+                text="Every path reported by each of the nine detectors on the generated programs is consumed block by block "
+                     "(one TLC behaviour per path) by the walk machine over Cfg!Graph with an explicit call stack and a stack of "
+                     "per-activation visited sets; start at entry, matched returns, leaf end, no revisit within an activation, no "
+                     "block the tool's own context excludes, no duplicate, renderings equal the block sequence; plus the verdict "
+                     "clauses against the tool's own contexts (SearchCheck.tla).",
+                technique="trace validation of reported paths against a TLA+ walk machine (SearchCheck.tla) with TLC"),
+    "C11": dict(level="model_checking", design_ref="DESIGN.md §5 C11",
+                text="(a) every opcode x immediate representative: declared pops/pushes equal AvmTable.tla (LineCheck.tla); (b) "
+                     "random straight-line programs over the whole opcode table, shuffle-heavy family included: each "
+                     "reconstructed producer (instruction, output index) or 'unknown' equals the tagged execution with the "
+                     "AVM's own stack effects (SeqCheck.tla).",
+                technique="TLA+ opcode table + tagged stack execution in TLA+, judged by TLC against the real stack-AST builder"),
+    "C16": dict(level="exploration", design_ref="DESIGN.md §5 C16",
+                text="Every opcode of AvmTable with representatives of every immediate class (integer spellings dec/hex/octal, "
+                     "byte spellings hex/base64/base32/quoted, fields, labels, named constants) in four whitespace/comment "
+                     "variants is parsed by the real parser; opcode, canonical printed form, round trip, line number and "
+                     "near-miss mnemonics are judged by LineCheck.tla.",
+                technique="TLC-enumerated line cases (LineGen.tla) parsed by the real parser, judged by TLC (LineCheck.tla)"),
+    "C17": dict(level="exploration", design_ref="DESIGN.md §5 C17",
+                text="detect (text, JSON, --filter-paths) and the printers cfg, subroutine-cfg, call-graph, human-summary, "
+                     "transaction-context are run through tealer's own main() on every generated layout program (dead code "
+                     "that branches/calls, loops, recursion, branch or call last) and samples of the check families; any "
+                     "non-zero exit or exception is a violation (RenderCheck.tla, clauses c17.*).",
+                technique="TLC-generated adversarial layouts replayed through the real CLI entry point; outcomes judged by TLC"),
+    "C18": dict(level="exploration", design_ref="DESIGN.md §5 C18",
+                text="The exported DOT files (cfg, per-subroutine, call graph, per-path, transaction-context) and the JSON "
+                     "envelope are parsed and compared with what RenderCheck.tla derives from Cfg!Graph and the tool's own "
+                     "contexts and paths: node and edge sets, call boxes, highlighted path blocks, annotations, count, success, "
+                     "--filter-paths.",
+                technique="TLA+ definition of the exports' denotation (RenderCheck.tla) judged by TLC on parsed output files"),
+    "C19": dict(level="exploration", design_ref="DESIGN.md §5 C19",
+                text="Per instruction: version, mode and cost (at version 8 and 1) equal AvmTable.tla. Per program (declared "
+                     "version 1-8 or none, random lines over the whole table): flagged lines, field flags, version, mode, mixed-"
+                     "mode report, contract type and block cost equal what SeqCheck.tla derives from the table.",
+                technique="TLA+ opcode/field table (AvmTable.tla) + TLC judging the real parser's classification"),
+    "C20": dict(level="model_checking", design_ref="DESIGN.md §5 C20",
+                text="For each generated program and each query (start label or *, patterns of 1-3 instructions cut from the "
+                     "text, absent pattern, unknown label) the real match_regex() is judged against reachability on the "
+                     "instruction graph computed in TLA+ (RegexCheck.tla): matches, covered subset of on-path, on-path subset "
+                     "of covered.",
+                technique="TLA+ instruction-level reachability (RegexCheck.tla) evaluated by TLC against the real regex engine"),
+})
 for _c in CHECKS.values():
     _c.setdefault("note", TLC_NOTE)
 
